@@ -6,6 +6,7 @@
 -/
 import Imeta.Lemmas.Bmff
 import Imeta.Lemmas.BmffTotal
+import Imeta.Lemmas.BmffIloc
 namespace Imeta.Props.C11
 open Imeta Imeta.Bmff
 
@@ -558,6 +559,46 @@ example : ∃ s', readMdat mdatSample = (.ok (), s') ∧
   refine ⟨s', h, ?_⟩
   rw [hev]
   rfl
+
+/-! ### HEIF: where the Exif item is — iinf and iloc decode what a well-formed file encodes -/
+
+theorem ilocSpec_none (exifId : Nat) (ol : Nat × Nat) (l : List IlocEnt) (h : ∀ x ∈ l, x.id ≠ exifId) : ilocSpec exifId ol l = ol := by
+  induction l generalizing ol with
+  | nil => rfl
+  | cons x t ih =>
+    unfold ilocSpec
+    have hx := h x (by simp)
+    rw [show (x.id == exifId) = false by simp [hx]]
+    exact ih ol (fun y hy => h y (by simp [hy]))
+
+theorem ilocSpec_last (exifId : Nat) (ol : Nat × Nat) (pre post : List IlocEnt) (e : IlocEnt) (he : e.id = exifId)
+    (hpost : ∀ x ∈ post, x.id ≠ exifId) : ilocSpec exifId ol (pre ++ e :: post) = (e.off, e.len) := by
+  induction pre generalizing ol with
+  | nil =>
+    show ilocSpec exifId (if e.id == exifId then (e.off, e.len) else ol) post = _
+    rw [show (e.id == exifId) = true by simp [he]]
+    exact ilocSpec_none exifId _ post hpost
+  | cons x t ih => exact ih _
+
+/-- **iloc**: on the payload that encodes a list of single-extent items (any version, any valid field sizes, any number of
+items), the entry walk of readIloc records the offset and length of the last item carrying the Exif item id.  (Single
+extents only: the reader, and so the model, does not step over the further extents of an item; the facade decoders do not
+use this path for HEIF — DecodeHeif searches for the Tiff header — see DESIGN.md 0.3.) -/
+theorem C11_iloc_decode_encode (c : IlocCfg) (exifId xmlId : Nat) (pre post : List IlocEnt) (e : IlocEnt) (ol : Nat × Nat)
+    (hok : ∀ x ∈ pre ++ e :: post, x.ok c) (he : e.id = exifId) (hpost : ∀ x ∈ post, x.id ≠ exifId) :
+    ilocWalk c exifId xmlId (encIloc c (pre ++ e :: post)) ((encIloc c (pre ++ e :: post)).length / 6 + 1) 0 ol = (e.off, e.len) := by
+  rw [ilocWalk_decode_encode c exifId xmlId _ ol hok]
+  exact ilocSpec_last exifId ol pre post e he hpost
+
+/-- **iinf**: on the payload that encodes a list of version-2 infe entries, the walk of readInfe records the ids of the last
+"Exif" item and the last "mime" item (`infeSpec`) -/
+theorem C11_infe_decode_encode (es : List InfeEnt) (ids : Nat × Nat) (hok : ∀ e ∈ es, e.ok) :
+    infeWalk (encInfes es) ((encInfes es).length / 12 + 1) 0 ids = infeSpec ids es :=
+  infeWalk_decode_encode es ids hok
+
+/-- non-vacuity: three items (hvc1 #1, Exif #2, mime #3); the walks find Exif = 2, XMP = 3, and the location of item 2 -/
+example : infeWalk (encInfes [⟨1, [104,118,99,49], []⟩, ⟨2, t_Exif, []⟩, ⟨3, t_mime, [120]⟩]) 10 0 (0, 0) = (2, 3) := by decide
+example : ilocWalk ⟨1, 4, 4, 0⟩ 2 3 (encIloc ⟨1, 4, 4, 0⟩ [⟨1, 500, 9000⟩, ⟨2, 9500, 120⟩, ⟨3, 9620, 77⟩]) 10 0 (0, 0) = (9500, 120) := by decide
 
 /-! ### any callback: whatever a callback does with the reader it is handed, it stays inside every open box -/
 
